@@ -62,7 +62,7 @@ intro = '''## 11. Seeded changes and which checks catch them
 Each change was written by a fresh sub-agent that was given only the text of one property and its own scratch
 worktree (nothing from /verif), and was kept only after `tools/confirm_mut.sh` had confirmed, in another scratch
 worktree of the current `/repo` HEAD, that the demonstration passes without the change and fails with it and that
-the whole existing suite still passes with it.  Seven batches were produced (`-a` … `-g`; `-f` a small one of twelve for six properties, `-g` five for the properties with the fewest changes, asked for changes that need a long-lived connection, a boundary value or an unusual transport segmentation; from the third on with the
+the whole existing suite still passes with it.  Seven batches were produced (`-a` … `-g`; `-f` a small one of twelve for six properties, `-g` eight (five, then three more at other sites) for the properties with the fewest changes, asked for changes that need a long-lived connection, a boundary value or an unusual transport segmentation; from the third on with the
 request to prefer the less obvious code paths, both stacks, both roles, configuration-dependent behaviour and
 interactions between features; the fourth for the seven properties that had the fewest changes, the fifth for the
 other twelve).  After the last `fix:` commit all of
@@ -81,7 +81,7 @@ runs the quick check of its property there (`VERIF_REPO`); `/repo` is never touc
 SUMMARY
 
 First exposure, i.e. each batch against the checks as they stood when the batch arrived: batch a 29 of 36 caught,
-b 22 of 32, c 14 of 24, d 12 of 14, e 18 of 24, f 10 of 12, g 4 of 5 — 109 of 147; the misses were analysed one by one and are listed after
+b 22 of 32, c 14 of 24, d 12 of 14, e 18 of 24, f 10 of 12, g 7 of 8 — 112 of 150; the misses were analysed one by one and are listed after
 the table with what was added for each.  The rate did not rise from batch to batch because each batch was asked
 for less obvious changes than the one before; what the later batches found were mostly obligations that a harness
 already exercised but asserted under another property's name, over-constrained pre-states, and situations no
